@@ -19,10 +19,10 @@ func init() {
 			"that every method of storage.Appender / AppenderV2 is forwarded to the primary and, in a loop, to every secondary, that fanout.Querier/ChunkQuerier fail on a primary error, close what they opened on a secondary error and " +
 			"hand the primary in the first and the secondaries in the second argument of the merge constructors, that inside these constructors every element of `secondaries` (and none of `primaries`) is wrapped by the secondary querier, " +
 			"and that the secondary querier turns label-query errors into warnings and, on a failed first Next, blanks every set it handed out.",
-		Note:     "Trusted: go/packages, go/types, go/cfg; rule tables in checker/c54.go.",
-		Covers:   "fanoutAppender{,V2}.Commit/Rollback and all forwarded methods; fanout.Querier/ChunkQuerier; NewMergeQuerier/NewMergeChunkQuerier wrapping; secondaryQuerier.LabelValues/LabelNames/Select.",
-		NotCover: "the merged content; behaviour of concrete secondaries; failures after the first Next (documented as unsupported by the code).",
-		Run:      runC54,
+		Note:           "Trusted: go/packages, go/types, go/cfg; rule tables in checker/c54.go.",
+		Covers:         "fanoutAppender{,V2}.Commit/Rollback and all forwarded methods; fanout.Querier/ChunkQuerier; NewMergeQuerier/NewMergeChunkQuerier wrapping; secondaryQuerier.LabelValues/LabelNames/Select.",
+		NotCover:       "the merged content; behaviour of concrete secondaries; failures after the first Next (documented as unsupported by the code).",
+		Run:            runC54,
 		MinObligations: 60,
 	})
 }
@@ -33,7 +33,7 @@ func runC54(c *eng.Ctx) {
 	for _, s := range []struct{ typ, iface string }{{"fanoutAppender", "Appender"}, {"fanoutAppenderV2", "AppenderV2"}} {
 		T := "storage:" + s.typ
 		I := "storage:" + s.iface
-		priCommit := p.Call(I + ".Commit").WithRecv("f.primary", p.IsFieldExpr(T+".primary")).Named("primary.Commit()")
+		priCommit := p.Call(I+".Commit").WithRecv("f.primary", p.IsFieldExpr(T+".primary")).Named("primary.Commit()")
 		secCommit := eng.OnVar("appender", "Commit").Named("secondary.Commit()")
 		secRollback := eng.OnVar("appender", "Rollback").Named("secondary.Rollback()")
 		f := c.Fn(T + ".Commit")
@@ -98,7 +98,10 @@ func runC54(c *eng.Ctx) {
 				fm.Dom("R2", pri, h)
 				fm.AllPaths("R2", pri, h, eng.AnyExit)
 				fm.AllPaths("R2", sec, h, eng.AnyExit)
-				fm.Only("R2", h, "handles the error of the preceding Append", func(l eng.Loc) bool { a := eng.CallArgsText(l); return len(a) == 1 && (a[0] == "err" || a[0] == "serr") })
+				fm.Only("R2", h, "handles the error of the preceding Append", func(l eng.Loc) bool {
+					a := eng.CallArgsText(l)
+					return len(a) == 1 && (a[0] == "err" || a[0] == "serr")
+				})
 				continue
 			}
 			fm.ErrPropagates("R2", pri, 1)
